@@ -21,6 +21,9 @@ func treeConfigs() []seqCfg {
 	return []seqCfg{
 		{Name: "tree-two-secrets-server-changes-failures-polls-restart", Expiry: 0, Declared: []string{"d"}, Names: []string{"d", "x"}, Initial: initial, NoDedup: true,
 			Events: []string{"put:d", "back:d", "failnext:d", "nfnext:d", "put:x", "back:x", "failnext:x", "poll", "restart"}},
+		// versions told apart by number only: "dup" makes a new active version with the bytes of the one before
+		{Name: "tree-one-secret-equal-bytes-versions", Expiry: 0, Declared: []string{"d"}, Names: []string{"d"}, Initial: initial, NoDedup: true,
+			Events: []string{"put:d", "dup:d", "back:d", "failnext:d", "poll", "restart"}},
 	}
 }
 
@@ -33,6 +36,7 @@ func seqConfigs() []seqCfg {
 		{Name: "expiry100s-empty-cache", Expiry: 100 * time.Second, Declared: []string{"d"}, Names: []string{"d", "u"}},
 		{Name: "no-expiry-empty-cache", Expiry: 0, Declared: []string{"d"}, Names: []string{"d", "u"}},
 		{Name: "expiry100s-initial-cache-stamps-0-old-recent", Expiry: 100 * time.Second, Declared: []string{"d"}, Names: []string{"d", "u", "x"}, Extra: []string{"w"}, Initial: initial},
+		{Name: "no-expiry-initial-cache-stamps-0-old-recent", Expiry: 0, Declared: []string{"d"}, Names: []string{"d", "u"}, Extra: []string{"w", "x"}, Initial: initial},
 	}
 }
 
@@ -105,7 +109,7 @@ func runSeqCfgs(env *report.Env, rep *report.Report, prop string, depthQuick, de
 	}
 	for _, cfg := range cfgs {
 		sec := rep.Add(&report.Section{Name: "seq-" + cfg.Name, Engine: "seqx", Exhaustive: true, Extra: map[string]int64{},
-			Rule:  "BFS over event histories (default alphabet: server put/activate-back/fail-next, Secret, read, LookupSecret per name; poll, restart-from-cache, clock +50s, clock +101s; 'tree' sections: a core alphabet with histories never merged) of a real Store with a scripted service and a virtual clock; successor = replay on a fresh Store; state = store dump + service state + cache document + clock + handle set; reference model stepped in lock-step; non-trivial = transitions into a new state",
+			Rule:  "BFS over event histories (default alphabet: server put/activate-back/fail-next and, for the declared name, a new active version that repeats the bytes of the one before; Secret, read, LookupSecret per name; poll, restart-from-cache, clock +50s, clock +101s; 'tree' sections: a core alphabet with histories never merged) of a real Store with a scripted service and a virtual clock; successor = replay on a fresh Store; state = store dump + service state + cache document + clock + handle set; reference model stepped in lock-step; non-trivial = transitions into a new state",
 			Bound: fmt.Sprintf("depth %d, %d events", depth, len(events(cfg)))})
 		fs := &seqFailures{}
 		dir := hx.Scratch("storeseq-")
@@ -145,6 +149,7 @@ func TestCheck(t *testing.T) {
 		prop = "C19"
 	}
 	rep := env.New(prop)
+	defer rep.Guard(env)
 	switch prop {
 	case "C19":
 		rep.Assumptions = []string{"expiry ages 0 and 100 s; clock steps of 50 s and 101 s; last-access stamps 0, old and recent in the initial cache", "the polling task is disabled (PollInterval<0) in the sequential search; polls are explicit Refresh calls"}
@@ -195,6 +200,7 @@ func TestCheck(t *testing.T) {
 		if env.Shard == 0 {
 			runSeq(env, rep, "C16", 4, 5, false)
 			checkLookupDisabled(rep)
+			checkLookupAnswers(rep)
 		}
 		// the five-thread hand-over chain is explored on its own with a smaller deviation bound (which
 		// caller leads each new request is a free choice, so bound 0 already covers every leadership order)
